@@ -57,9 +57,40 @@ def build_with_operators(t):
     return build_over(t, ks)
 
 
+def build_variable_objects(t, mode):
+    """A tree whose inner nodes are fresh objects and whose Variable leaves follow `mode`:
+    'one-per-name'  : one Variable object per name, shared by all its occurrences;
+    'two-per-name'  : two Variable objects per name, used alternately (a, b, a, b, ...) in left-to-right order."""
+    pools = {}
+    count = {}
+
+    def leaf(name):
+        if mode == "one-per-name":
+            if name not in pools:
+                pools[name] = [smx.Variable(name)]
+            return pools[name][0]
+        if name not in pools:
+            pools[name] = [smx.Variable(name), smx.Variable(name)]
+            count[name] = 0
+        k = count[name]
+        count[name] = k + 1
+        return pools[name][k % 2]
+
+    def go(u):
+        if u[0] == "var":
+            return leaf(u[1])
+        if u[0] == "const":
+            return smx.Constant(u[1])
+        return build_over(u, [go(c) for c in M.children(u)])
+
+    return go(t)
+
+
 def build(t, share: bool = False, _memo=None):
     if share == "ops":
         return build_with_operators(t)
+    if share in ("one-per-name", "two-per-name"):
+        return build_variable_objects(t, share)
     """Construct the implementation expression for model term t through the public constructors.
 
     share=False: a fresh object per occurrence (a tree).
@@ -230,3 +261,48 @@ def kind(o) -> str:
 
 def is_finite_real(v) -> bool:
     return isinstance(v, (int, float)) and not isinstance(v, bool) and math.isfinite(v)
+
+
+def library_identifiers():
+    """Every identifier the library's own code uses as a parameter, local, global or attribute name (harvested from the
+    code objects of all loaded smoothmath modules), plus the builtins' names: the coordinate and variable names most
+    likely to collide with something inside the library.  Sorted, keywords excluded."""
+    import sys
+    import types
+    import keyword
+    import builtins
+    seen = set()
+    codes = []
+
+    def walk(code):
+        codes.append(code)
+        for k in code.co_consts:
+            if isinstance(k, types.CodeType):
+                walk(k)
+
+    for modname, mod in list(sys.modules.items()):
+        if not (modname == "smoothmath" or modname.startswith("smoothmath.")) or mod is None:
+            continue
+        for obj in list(vars(mod).values()):
+            fns = []
+            if isinstance(obj, types.FunctionType):
+                fns.append(obj)
+            elif isinstance(obj, type) and getattr(obj, "__module__", "").startswith("smoothmath"):
+                for m in vars(obj).values():
+                    m = getattr(m, "__func__", m)
+                    if isinstance(m, property):
+                        fns.extend(f for f in (m.fget, m.fset) if f)
+                    elif isinstance(m, types.FunctionType):
+                        fns.append(m)
+                seen.update(vars(obj))
+            for f in fns:
+                walk(f.__code__)
+        seen.update(k for k in vars(mod) if isinstance(k, str))
+    for c in codes:
+        seen.update(c.co_varnames)
+        seen.update(c.co_names)
+        seen.update(c.co_freevars)
+        seen.update(c.co_cellvars)
+    seen.update(dir(builtins))
+    # __debug__ is the one identifier Python refuses as a keyword argument
+    return sorted(n for n in seen if isinstance(n, str) and n.isidentifier() and not keyword.iskeyword(n) and n != "__debug__")
